@@ -539,3 +539,352 @@ def render(lines, st):
 ALL_KINDS = ['case-kw', 'case-id', 'case-num', 'blank-add', 'blank-remove', 'indent', 'relop',
              'let', 'call-form', 'next-var', 'label-rename', 'lineno-renumber', 'colon-join',
              'trailing-colon', 'empty-line', 'comment-line', 'comment-eol']
+
+
+# --------------------------------------------------------------------------
+# family 'decl': letter case of ONE name at its declaration site(s) (@D) and at its use sites (@U),
+# for every declaration form of every kind of name.  Every program OBSERVES the variable so that a
+# split identity (declaration registered under one spelling, uses under another) changes the
+# sections / the trace / the verdict.  The expected printed text is known by construction.
+
+STEM = 'vbl'
+SPELL = {'lower': 'vbl', 'cap': 'Vbl', 'upper': 'VBL', 'mixed': 'vBl'}
+DECL_SPELLINGS = ['lower', 'cap', 'upper', 'mixed']
+USE_SPELLINGS = ['lower', 'upper', 'mixed']
+
+
+def num(n):
+    """PRINT of an integral value"""
+    return (' ' if n >= 0 else '-') + str(abs(n)) + ' '
+
+
+NL = '\r\n'
+
+# (tag, suffix at the declaration, suffix at a use, caller's variable, is string)
+PARAM_TYPES = [
+    ('untyped', '', '', 'x', False),
+    ('pct', '%', '%', 'x%', False),
+    ('amp', '&', '&', 'x&', False),
+    ('bang', '!', '!', 'x!', False),
+    ('hash', '#', '#', 'x#', False),
+    ('dollar', '$', '$', 'x$', True),
+    ('as-integer', ' AS INTEGER', '', 'x%', False),
+    ('as-long', ' AS LONG', '', 'x&', False),
+    ('as-single', ' AS SINGLE', '', 'x!', False),
+    ('as-double', ' AS DOUBLE', '', 'x#', False),
+    ('as-string', ' AS STRING', '', 'x$', True),
+]
+
+
+def decl_templates():
+    """-> list of (form id, text with @D / @U, expected printed text)"""
+    T = []
+    for tag, ds, us, cv, isstr in PARAM_TYPES:
+        as_clause = ds.startswith(' AS')
+        dsc = '@D' + ds                                    # scalar parameter
+        dar = '@D()' + ds if as_clause else '@D' + ds + '()'   # array parameter
+        u = '@U' + us
+        ca = cv.replace('x', 'a')
+        if isstr:
+            init, upd, exp = f'{cv} = "p"', f'{u} = {u} + "q"', 'pq' + NL
+            ainit, aupd, aexp = f'{ca}(1) = "p"', f'{u}(1) = {u}(1) + "q"', 'pq' + NL
+            ret = 'LEN(' + u + ')'
+        else:
+            init, upd, exp = f'{cv} = 1', f'{u} = {u} + 4', num(5) + NL
+            ainit, aupd, aexp = f'{ca}(1) = 1', f'{u}(1) = {u}(1) + 4', num(5) + NL
+            ret = u
+        # SUB, scalar parameter passed by reference
+        T.append((f'sub-param-scalar-{tag}',
+                  f'{init}\nCALL p({cv})\nPRINT {cv}\nSUB p ({dsc})\n{upd}\nEND SUB\n', exp))
+        # SUB, array parameter
+        T.append((f'sub-param-array-{tag}',
+                  f'DIM {ca}(3)\n{ainit}\nCALL p({ca}())\nPRINT {ca}(1)\nSUB p ({dar})\n{aupd}\nEND SUB\n', aexp))
+        # second parameter, statement-form call
+        T.append((f'sub-param2-array-{tag}',
+                  f'DIM {ca}(3)\n{ainit}\np 2, {ca}()\nPRINT {ca}(1)\nSUB p (n%, {dar})\n{aupd}\nEND SUB\n', aexp))
+        # FUNCTION parameters
+        T.append((f'function-param-scalar-{tag}',
+                  f'{init}\nr% = f%({cv})\nPRINT {cv}\nFUNCTION f% ({dsc})\n{upd}\nf% = 1\nEND FUNCTION\n', exp))
+        T.append((f'function-param-array-{tag}',
+                  f'DIM {ca}(3)\n{ainit}\nr% = f%({ca}())\nPRINT {ca}(1)\nFUNCTION f% ({dar})\n{aupd}\nf% = 1\n'
+                  f'END FUNCTION\n', aexp))
+        # the name in the DECLARE statement only
+        T.append((f'declare-param-array-{tag}',
+                  f'DECLARE SUB p ({dar})\nDIM {ca}(3)\n{ainit}\np {ca}()\nPRINT {ca}(1)\n'
+                  f'SUB p ({dar.replace("@D", "@U")})\n{aupd}\nEND SUB\n', aexp))
+        # DIM / DIM SHARED / STATIC of a scalar (qbee has no REDIM and no SHARED statement) and of an array
+        if isstr:
+            sset, sexp = f'{u} = "s"', 's' + NL
+        else:
+            sset, sexp = f'{u} = 7', num(7) + NL
+        dimsc = '@D' + ds
+        dimar = '@D(20)' + ds if as_clause else '@D' + ds + '(20)'
+        T.append((f'dim-scalar-{tag}', f'DIM {dimsc}\n{sset}\nPRINT {u}\n', sexp))
+        T.append((f'dim-array-{tag}', f'DIM {dimar}\n{u}(15) = {sset.split(" = ")[1]}\nPRINT {u}(15)\n', sexp))
+        T.append((f'dim-shared-scalar-{tag}',
+                  f'DIM SHARED {dimsc}\n{sset}\nCALL p\nSUB p\nPRINT {u}\nEND SUB\n', sexp))
+        T.append((f'dim-shared-array-{tag}',
+                  f'DIM SHARED {dimar}\n{u}(15) = {sset.split(" = ")[1]}\nCALL p\nSUB p\nPRINT {u}(15)\nEND SUB\n', sexp))
+        if isstr:
+            T.append((f'static-scalar-{tag}',
+                      f'CALL p\nCALL p\nSUB p\nSTATIC {dimsc}\n{u} = {u} + "s"\nPRINT {u}\nEND SUB\n', 's' + NL + 'ss' + NL))
+        else:
+            T.append((f'static-scalar-{tag}',
+                      f'CALL p\nCALL p\nSUB p\nSTATIC {dimsc}\n{u} = {u} + 1\nPRINT {u}\nEND SUB\n',
+                      num(1) + NL + num(2) + NL))
+        # FUNCTION name with the suffix forms
+        if not as_clause:
+            if isstr:
+                T.append((f'function-name-{tag}',
+                          f'PRINT {u}("k")\nFUNCTION @D{ds} (z$)\n{u} = z$ + "f"\nEND FUNCTION\n', 'kf' + NL))
+            else:
+                T.append((f'function-name-{tag}',
+                          f'PRINT {u}(4)\nFUNCTION @D{ds} (z%)\n{u} = z% * 2\nEND FUNCTION\n', num(8) + NL))
+            # CONST
+            if isstr:
+                T.append((f'const-{tag}', f'CONST @D{ds} = "k"\nPRINT {u} + "c"\n', 'kc' + NL))
+            else:
+                T.append((f'const-{tag}', f'CONST @D{ds} = 3\nPRINT {u} * 2\n', num(6) + NL))
+            # implicit variable, FOR variable, READ target
+            if not isstr:
+                T.append((f'for-var-{tag}', f'FOR @D{ds} = 1 TO 2\nPRINT {u}\nNEXT {u}\n', num(1) + NL + num(2) + NL))
+                T.append((f'read-target-{tag}', f'READ @D{ds}\nPRINT {u}\nDATA 4\n', num(4) + NL))
+            else:
+                T.append((f'read-target-{tag}', f'READ @D{ds}\nPRINT {u}\nDATA w\n', 'w' + NL))
+    # integer declared, fractional value stored: a split identity keeps the fraction
+    T.append(('dim-scalar-as-integer-rounds', 'DIM @D AS INTEGER\n@U = 2.6\nPRINT @U\n', num(3) + NL))
+    T.append(('dim-shared-as-integer-rounds', 'DIM SHARED @D AS INTEGER\nCALL p\nPRINT @U\nSUB p\n@U = 2.6\nEND SUB\n',
+              num(3) + NL))
+    T.append(('static-as-integer-rounds', 'CALL p\nSUB p\nSTATIC @D AS INTEGER\n@U = 2.6\nPRINT @U\nEND SUB\n', num(3) + NL))
+    T.append(('defint-letter', 'DEFINT @L\n@U = 2.6\nPRINT @U\n', num(3) + NL))
+    # SUB name
+    T.append(('sub-name-call', 'CALL @U\nSUB @D\nPRINT "in"\nEND SUB\n', 'in' + NL))
+    T.append(('sub-name-stmt', '@U\nSUB @D\nPRINT "in"\nEND SUB\n', 'in' + NL))
+    T.append(('sub-name-declare', 'DECLARE SUB @D (n%)\n@U 3\nSUB @U (n%)\nPRINT n%\nEND SUB\n', num(3) + NL))
+    T.append(('function-name-declare', 'DECLARE FUNCTION @D% (n%)\nPRINT @U%(3)\nFUNCTION @U% (n%)\n@U% = n% + 1\nEND FUNCTION\n',
+              num(4) + NL))
+    # TYPE name, field, record variable, record parameter, array of records
+    T.append(('type-name', 'TYPE @D\nfld AS INTEGER\nEND TYPE\nDIM r AS @U\nr.fld = 2.6\nPRINT r.fld\n', num(3) + NL))
+    T.append(('type-field', 'TYPE rec\n@D AS INTEGER\nother AS LONG\nEND TYPE\nDIM r AS rec\nr.@U = 2.6\nr.other = 9\n'
+                            'PRINT r.@U; r.other\n', num(3) + num(9) + NL))
+    T.append(('type-field-string', 'TYPE rec\n@D AS STRING\nEND TYPE\nDIM r AS rec\nr.@U = "ab"\nPRINT "["; r.@U; "]"\n',
+              '[ab]' + NL))
+    T.append(('record-var', 'TYPE rec\nfld AS INTEGER\nEND TYPE\nDIM @D AS rec\n@U.fld = 2.6\nPRINT @U.fld\n', num(3) + NL))
+    T.append(('record-array', 'TYPE rec\nfld AS INTEGER\nEND TYPE\nDIM @D(20) AS rec\n@U(15).fld = 2.6\nPRINT @U(15).fld\n',
+              num(3) + NL))
+    T.append(('record-param', 'TYPE rec\nfld AS INTEGER\nEND TYPE\nDIM r AS rec\nCALL p(r)\nPRINT r.fld\n'
+                              'SUB p (@D AS rec)\n@U.fld = 5\nEND SUB\n', num(5) + NL))
+    T.append(('record-array-param', 'TYPE rec\nfld AS INTEGER\nEND TYPE\nDIM r(3) AS rec\nCALL p(r())\nPRINT r(1).fld\n'
+                                    'SUB p (@D() AS rec)\n@U(1).fld = 5\nEND SUB\n', num(5) + NL))
+    # labels
+    T.append(('label-goto', 'GOTO @U\nPRINT "skipped"\n@D:\nPRINT "t"\n', 't' + NL))
+    T.append(('label-gosub', 'GOSUB @U\nPRINT "back"\nEND\n@D:\nPRINT "t"\nRETURN\n', 't' + NL + 'back' + NL))
+    T.append(('label-restore', 'READ a%\nRESTORE @U\nREAD b%\nPRINT a%; b%\nDATA 1\n@D: DATA 2\n', num(1) + num(2) + NL))
+    T.append(('label-on-error', 'ON ERROR GOTO @U\nz% = 0\nPRINT 1 \\ z%\nEND\n@D:\nPRINT "h"\n', 'h' + NL))
+    T.append(('label-if-then-goto', 'IF 1 THEN GOTO @U\nPRINT "skipped"\n@D: PRINT "t"\n', 't' + NL))
+    return T
+
+
+def decl_texts(text, dsp, usp, kwlower=False):
+    """the templates have every keyword in upper case, every other name and every literal in lower case"""
+    t = text.replace('@L', SPELL[dsp][0] if dsp != 'mixed' else 'V').replace('@D', '\x01').replace('@U', '\x02')
+    if kwlower:
+        t = t.lower()
+    return t.replace('\x01', SPELL[dsp]).replace('\x02', SPELL[usp])
+
+
+# --------------------------------------------------------------------------
+# family 'litcase': programs in which several lines are identical up to the letter case INSIDE a
+# string literal, a DATA item or a comment.  A line is a list of segments (kind, text) with kind
+# 'code' (keywords, identifiers, operators: case-insensitive, blanks free) or 'lit' (string literal
+# with its quotes, DATA payload, comment: verbatim).  What the program prints is known by construction.
+
+WORDS = ['north', 'q', 'ab cd', "it's", 'rem x', 'then', 'a:b']
+WORD_SPELLINGS = ['lower', 'upper', 'cap', 'inv']
+
+
+def spell_word(w, sp):
+    if sp == 'lower':
+        return w.lower()
+    if sp == 'upper':
+        return w.upper()
+    if sp == 'cap':
+        return w[:1].upper() + w[1:].lower()
+    return w[:1].lower() + w[1:].upper() if len(w) > 1 else w.upper()
+
+
+def C(t):
+    return ('code', t)
+
+
+def V(t):
+    return ('lit', t)
+
+
+def lit_shapes():
+    """-> {shape: function(words in their spellings) -> (lines before, [the similar lines], lines
+    after, expected printed text)}; every line is a list of segments"""
+    def q(w):
+        return V('"' + w + '"')
+
+    def print_lit(ws):
+        return [], [[C('PRINT '), q(w)] for w in ws], [], ''.join(w + NL for w in ws)
+
+    def print_two(ws):
+        return [], [[C('PRINT '), q('Same'), C('; '), q(w)] for w in ws], [], ''.join('Same' + w + NL for w in ws)
+
+    def assign_colon(ws):
+        return [], [[C('t$ = '), q(w), C(': PRINT t$')] for w in ws], [], ''.join(w + NL for w in ws)
+
+    def assign_then_print(ws):
+        sim = []
+        for w in ws:
+            sim.append([C('t$ = '), q(w)])
+            sim.append([C('PRINT t$')])
+        return [], sim, [], ''.join(w + NL for w in ws)
+
+    def concat(ws):
+        return [[C('t$ = '), q('')]], [[C('t$ = t$ + '), q(w)] for w in ws], [[C('PRINT t$')]], ''.join(ws) + NL
+
+    def if_eq(ws):
+        # k$ is the LAST spelling: exactly the lines whose literal equals it count
+        n = sum(1 for w in ws if w == ws[-1])
+        return ([[C('k$ = '), q(ws[-1])], [C('hits% = 0')]],
+                [[C('IF k$ = '), q(w), C(' THEN hits% = hits% + 1')] for w in ws],
+                [[C('PRINT hits%')]], num(n) + NL)
+
+    def if_else(ws):
+        return ([[C('k$ = '), q(ws[0])]],
+                [[C('IF '), q(w), C(' = k$ THEN PRINT '), q('y'), C(' ELSE PRINT '), q('n')] for w in ws],
+                [], ''.join(('y' if w == ws[0] else 'n') + NL for w in ws))
+
+    def select_case(ws):
+        first = ws.index(ws[-1])
+        sim = []
+        for i, w in enumerate(ws):
+            sim.append([C('CASE '), q(w)])
+            sim.append([C('PRINT '), q('branch'), C(';' + ' ' * 0), C(' ' + str(i))])
+        return ([[C('k$ = '), q(ws[-1])], [C('SELECT CASE k$')]], sim, [[C('END SELECT')]],
+                'branch' + num(first) + NL)
+
+    def data_unquoted(ws):
+        if any(c in w for w in ws for c in ",:'\"") or any(w.lower().startswith('rem') for w in ws):
+            return None
+        n = len(ws)
+        return ([[C(f'FOR i% = 1 TO {n}')], [C('READ t$')], [C('PRINT t$')], [C('NEXT i%')]],
+                [[C('DATA'), V(' ' + w)] for w in ws], [], ''.join(w + NL for w in ws))
+
+    def data_quoted(ws):
+        n = len(ws)
+        return ([[C(f'FOR i% = 1 TO {n}')], [C('READ t$, n%')], [C('PRINT t$; n%')], [C('NEXT i%')]],
+                [[C('DATA'), V(' "' + w + '", 7')] for w in ws], [], ''.join(w + num(7) + NL for w in ws))
+
+    def comment_eol(ws):
+        return [], [[C('PRINT '), q('x'), C(' '), V("' " + w)] for w in ws], [], ''.join('x' + NL for w in ws)
+
+    def rem_line(ws):
+        sim = []
+        for w in ws:
+            sim.append([C('REM'), V(' ' + w)])
+            sim.append([C('PRINT '), q('r')])
+        return [], sim, [], ''.join('r' + NL for w in ws)
+
+    def call_arg(ws):
+        return ([], [[C('CALL show('), q(w), C(')')] for w in ws],
+                [[C('SUB show (m$)')], [C('PRINT m$')], [C('END SUB')]], ''.join(w + NL for w in ws))
+
+    def stmt_call_arg(ws):
+        return ([], [[C('show '), q(w)] for w in ws],
+                [[C('SUB show (m$)')], [C('PRINT m$')], [C('END SUB')]], ''.join(w + NL for w in ws))
+
+    def func_arg(ws):
+        return ([], [[C('PRINT LEN('), q(w), C('); ASC('), q(w), C(')')] for w in ws], [],
+                ''.join(num(len(w)) + num(ord(w[0])) + NL for w in ws))
+
+    def array_elem(ws):
+        return ([[C('DIM t$(9)')]], [[C(f't$({1}) = '), q(w), C(': PRINT t$(1)')] for w in ws], [],
+                ''.join(w + NL for w in ws))
+
+    def in_block(ws):
+        sim = []
+        for w in ws:
+            sim.append([C('FOR i% = 1 TO 1')])
+            sim.append([C('  PRINT '), q(w)])
+            sim.append([C('NEXT i%')])
+        return [], sim, [], ''.join(w + NL for w in ws)
+
+    def const_def(ws):
+        return ([], [[C(f'CONST c{i}$ = '), q(w)] for i, w in enumerate(ws)][:1] +
+                [[C('PRINT c0$; '), q(w)] for w in ws], [], ''.join(ws[0] + w + NL for w in ws))
+
+    return {'print': print_lit, 'print-two': print_two, 'assign-colon': assign_colon,
+            'assign-then-print': assign_then_print, 'concat': concat, 'if-eq': if_eq, 'if-else': if_else,
+            'select-case': select_case, 'data-unquoted': data_unquoted, 'data-quoted': data_quoted,
+            'comment-eol': comment_eol, 'rem-line': rem_line, 'call-arg': call_arg,
+            'stmt-call-arg': stmt_call_arg, 'func-arg': func_arg, 'array-elem': array_elem,
+            'in-block': in_block, 'const-print': const_def}
+
+
+def seg_text(line, code=None):
+    """the text of a line; code = function applied to the code segments"""
+    return ''.join(t if k == 'lit' or code is None else code(t) for k, t in line)
+
+
+def swap_words(t):
+    """another letter case for every word of a code segment, word by word alternating"""
+    out, i, n = '', 0, 0
+    while i < len(t):
+        if t[i].isalpha():
+            j = i
+            while j < len(t) and (t[j].isalnum()):
+                j += 1
+            w = t[i:j]
+            out += w.lower() if n % 2 == 0 and w != w.lower() else (w.upper() if w != w.upper() else w.lower())
+            n += 1
+            i = j
+        else:
+            out += t[i]
+            i += 1
+    return out
+
+
+LINE_REWRITES = ['case-lower', 'case-upper', 'case-swap', 'blank-double', 'indent', 'blank-trailing',
+                 'comment-eol', 'trailing-colon']
+
+
+def rewrite_line(line, how):
+    """-> text of the line under one behaviour-neutral rewriting, or None when it does not apply"""
+    is_data = any(k == 'code' and t.strip().upper() == 'DATA' for k, t in line)
+    is_rem = any(k == 'code' and t.strip().upper() == 'REM' for k, t in line)
+    has_comment = any(k == 'lit' and t.startswith("'") for k, t in line)
+    base = seg_text(line)
+    if how == 'case-lower':
+        r = seg_text(line, str.lower)
+    elif how == 'case-upper':
+        r = seg_text(line, str.upper)
+    elif how == 'case-swap':
+        r = seg_text(line, swap_words)
+    elif how == 'blank-double':
+        # blanks between tokens of the code segments (never the blank that ends a DATA/REM keyword:
+        # the payload is verbatim)
+        r = seg_text(line, lambda t: t.replace(' ', '  '))
+    elif how == 'indent':
+        r = '   ' + base
+    elif how == 'blank-trailing':
+        if is_data or is_rem or has_comment:
+            return None
+        r = base + '  '
+    elif how == 'comment-eol':
+        if is_data or is_rem or has_comment:
+            return None
+        r = base + " ' note"
+    elif how == 'trailing-colon':
+        if is_data or is_rem or has_comment:
+            return None
+        first = line[0][1].lstrip().upper()
+        if first.startswith(('IF ', 'CASE', 'SELECT', 'FOR', 'NEXT', 'SUB', 'END', 'CONST', 'DIM')):
+            return None
+        r = base + ' :'
+    else:
+        raise ValueError(how)
+    return r if r != base else None
